@@ -51,6 +51,7 @@ CONSTANTS
   CtxMayExpire,    \* BOOLEAN: ShutdownContext's ctx may expire
   ClientMayClose,  \* BOOLEAN: a client may close its connection at any time
   HandlerMayClose, \* BOOLEAN: a handler may call w.Close()
+  HandlerMayHijack,\* BOOLEAN: a handler may call w.Hijack(): the connection is the handler's from then on
   StartMayFail,    \* BOOLEAN: start calls that cannot succeed are made (no listener configured, unusable
                    \* socket / address / Net): the failed-start paths of ActivateAndServe / ListenAndServe
   SpareFields,     \* BOOLEAN: the Server value may hold BOTH fields: a PacketConn next to the Listener it serves
@@ -75,7 +76,7 @@ VARIABLES
   \* ---- starter / serve loop p
   spc, sgen, sres, wg, scur, serr, slsn, sbad,
   \* ---- connection worker c
-  wpc, wown, dl, copen, hrep, hclosed,
+  wpc, wown, dl, copen, hrep, hclosed, hij,
   \* ---- packet worker k
   kpc, kown, nread,
   \* ---- shutdown caller h
@@ -88,7 +89,7 @@ VARIABLES
 fields  == <<started, lock, gen, closed, conns, lsnField, cfgBad, pcField>>
 transp  == <<lsnOpen, pend, pcOpen, pcDL, pin>>
 svars   == <<spc, sgen, sres, wg, scur, serr, slsn, sbad>>
-wvars   == <<wpc, wown, dl, copen, hrep, hclosed>>
+wvars   == <<wpc, wown, dl, copen, hrep, hclosed, hij>>
 kvars   == <<kpc, kown, nread>>
 shvars  == <<shpc, shres, shgen, capt, kick, shseen, shtodo>>
 cvars   == <<cst, csent, inbox, psent>>
@@ -114,7 +115,7 @@ Init ==
   /\ wg = [p \in P |-> 0] /\ scur = [p \in P |-> 0] /\ serr = [p \in P |-> "-"] /\ slsn = [p \in P |-> 0]
   /\ sbad = [p \in P |-> FALSE]
   /\ wpc = [c \in C |-> "none"] /\ wown = [c \in C |-> 0] /\ dl = [c \in C |-> "none"]
-  /\ copen = [c \in C |-> TRUE] /\ hrep = [c \in C |-> FALSE] /\ hclosed = [c \in C |-> FALSE]
+  /\ copen = [c \in C |-> TRUE] /\ hrep = [c \in C |-> FALSE] /\ hclosed = [c \in C |-> FALSE] /\ hij = [c \in C |-> FALSE]
   /\ kpc = [k \in K |-> "none"] /\ kown = [k \in K |-> 0] /\ nread = 0
   /\ shpc = [h \in H |-> "idle"] /\ shres = [h \in H |-> "-"] /\ shgen = [h \in H |-> 0]
   /\ capt = [h \in H |-> 0] /\ kick = [h \in H |-> {}] /\ shseen = [h \in H |-> {}] /\ shtodo = [h \in H |-> {}]
@@ -160,7 +161,7 @@ StBody(p) ==                      \* if srv.started {return err}; srv.init(); <c
           /\ wg' = [wg EXCEPT ![p] = 0]
           /\ slsn' = [slsn EXCEPT ![p] = lsnField]     \* serveTCP(srv.Listener)
           /\ lock' = NoLock
-          /\ spc' = [spc EXCEPT ![p] = "top"]
+          /\ spc' = [spc EXCEPT ![p] = "notify"]    \* the lock is released BEFORE NotifyStartedFunc runs
           /\ UNCHANGED sres
           /\ L(<<"StStarted", p>>)
   /\ UNCHANGED <<closed, lsnField, cfgBad, pcField, transp, scur, serr, sbad, wvars, kvars, shvars, cvars, hist>>
@@ -174,6 +175,12 @@ StErrReturn(p) ==                 \* the deferred unlock() on the error path
 
 -----------------------------------------------------------------------------
 (* Serve loops: serveTCP 463-496, serveUDP 499-558                           *)
+
+SNotify(p) ==                     \* srv.NotifyStartedFunc() returns: user code, run without srv.lock -- while it
+  /\ spc[p] = "notify"              \* runs a second start is refused and a Shutdown goes ahead
+  /\ spc' = [spc EXCEPT ![p] = "top"]
+  /\ UNCHANGED <<fields, transp, sgen, sres, wg, scur, serr, slsn, sbad, wvars, kvars, shvars, cvars, hist>>
+  /\ L(<<"SNotify", p>>)
 
 SCheck(p) ==                      \* for srv.isStarted()
   /\ spc[p] = "top" /\ Free
@@ -222,7 +229,7 @@ SRegister(p) ==                   \* lock; conns[rw] = {}; unlock; wg.Add(1); go
   /\ wg' = [wg EXCEPT ![p] = @ + 1]
   /\ scur' = [scur EXCEPT ![p] = 0]
   /\ spc' = [spc EXCEPT ![p] = "top"]
-  /\ UNCHANGED <<started, lock, gen, closed, lsnField, cfgBad, pcField, transp, sgen, sres, serr, slsn, sbad, dl, copen, hrep, hclosed, kvars, shvars, cvars, hist>>
+  /\ UNCHANGED <<started, lock, gen, closed, lsnField, cfgBad, pcField, transp, sgen, sres, serr, slsn, sbad, dl, copen, hrep, hclosed, hij, kvars, shvars, cvars, hist>>
 
 \* broken variant "reg_after_spawn": the worker is spawned first, the connection registered afterwards
 SSpawnFirst(p) ==
@@ -233,7 +240,7 @@ SSpawnFirst(p) ==
        /\ L(<<"SSpawnFirst", p, c>>)
   /\ wg' = [wg EXCEPT ![p] = @ + 1]
   /\ spc' = [spc EXCEPT ![p] = "got2"]
-  /\ UNCHANGED <<fields, transp, sgen, sres, scur, serr, slsn, sbad, dl, copen, hrep, hclosed, kvars, shvars, cvars, hist>>
+  /\ UNCHANGED <<fields, transp, sgen, sres, scur, serr, slsn, sbad, dl, copen, hrep, hclosed, hij, kvars, shvars, cvars, hist>>
 SRegLate(p) ==
   /\ spc[p] = "got2" /\ Free
   /\ conns' = conns \cup {scur[p]}
@@ -317,88 +324,94 @@ USpawn(p) ==                      \* wg.Add(1); go serveUDPPacket
 WStart(c) ==
   /\ wpc[c] = "spawned"
   /\ wpc' = [wpc EXCEPT ![c] = "top"]
-  /\ UNCHANGED <<fields, transp, svars, wown, dl, copen, hrep, hclosed, kvars, shvars, cvars, hist>>
+  /\ UNCHANGED <<fields, transp, svars, wown, dl, copen, hrep, hclosed, hij, kvars, shvars, cvars, hist>>
   /\ L(<<"WStart", c>>)
 
 WLoop(c) ==                       \* for ... && srv.isStarted()
   /\ wpc[c] = "top" /\ Free
   /\ wpc' = [wpc EXCEPT ![c] = IF started THEN "rdl" ELSE "close"]
-  /\ UNCHANGED <<fields, transp, svars, wown, dl, copen, hrep, hclosed, kvars, shvars, cvars, hist>>
+  /\ UNCHANGED <<fields, transp, svars, wown, dl, copen, hrep, hclosed, hij, kvars, shvars, cvars, hist>>
   /\ L(<<"WLoop", c, started>>)
 
 WSetDeadline(c) ==                \* RLock; if srv.started {conn.SetReadDeadline(future)}; RUnlock
   /\ wpc[c] = "rdl" /\ Free
   /\ dl' = [dl EXCEPT ![c] = IF started \/ Bug = "dl_nocheck" THEN "future" ELSE @]
   /\ wpc' = [wpc EXCEPT ![c] = "read"]
-  /\ UNCHANGED <<fields, transp, svars, wown, copen, hrep, hclosed, kvars, shvars, cvars, hist>>
+  /\ UNCHANGED <<fields, transp, svars, wown, copen, hrep, hclosed, hij, kvars, shvars, cvars, hist>>
   /\ L(<<"WSetDeadline", c, started>>)
 
 WReadOk(c) ==
   /\ wpc[c] = "read" /\ copen[c] /\ dl[c] # "past" /\ inbox[c] > 0
   /\ inbox' = [inbox EXCEPT ![c] = @ - 1]
   /\ wpc' = [wpc EXCEPT ![c] = "have"]
-  /\ UNCHANGED <<fields, transp, svars, wown, dl, copen, hrep, hclosed, kvars, shvars, cst, csent, psent, hist>>
+  /\ UNCHANGED <<fields, transp, svars, wown, dl, copen, hrep, hclosed, hij, kvars, shvars, cst, csent, psent, hist>>
   /\ L(<<"WReadOk", c>>)
 
 WReadTimeout(c) ==
   /\ wpc[c] = "read" /\ copen[c] /\ dl[c] = "past"
   /\ wpc' = [wpc EXCEPT ![c] = "close"]
-  /\ UNCHANGED <<fields, transp, svars, wown, dl, copen, hrep, hclosed, kvars, shvars, cvars, hist>>
+  /\ UNCHANGED <<fields, transp, svars, wown, dl, copen, hrep, hclosed, hij, kvars, shvars, cvars, hist>>
   /\ L(<<"WReadTimeout", c>>)
 
 WReadEOF(c) ==                    \* peer closed (after its data was consumed), or our side is closed
   /\ wpc[c] = "read"
   /\ (cst[c] = "closed" /\ inbox[c] = 0) \/ ~copen[c]
   /\ wpc' = [wpc EXCEPT ![c] = "close"]
-  /\ UNCHANGED <<fields, transp, svars, wown, dl, copen, hrep, hclosed, kvars, shvars, cvars, hist>>
+  /\ UNCHANGED <<fields, transp, svars, wown, dl, copen, hrep, hclosed, hij, kvars, shvars, cvars, hist>>
   /\ L(<<"WReadEOF", c>>)
 
 WHandlerEnter(c) ==               \* serveDNS -> srv.Handler.ServeDNS
   /\ wpc[c] = "have"
   /\ wpc' = [wpc EXCEPT ![c] = "inh"]
   /\ hrep' = [hrep EXCEPT ![c] = FALSE]
-  /\ UNCHANGED <<fields, transp, svars, wown, dl, copen, hclosed, kvars, shvars, cvars, hist>>
+  /\ UNCHANGED <<fields, transp, svars, wown, dl, copen, hclosed, hij, kvars, shvars, cvars, hist>>
   /\ L(<<"WHandlerEnter", c>>)
 
 WReply(c) ==                      \* w.WriteMsg from the handler
   /\ wpc[c] = "inh" /\ ~hrep[c] /\ ~hclosed[c]
   /\ hrep' = [hrep EXCEPT ![c] = TRUE]
   /\ replyLost' = (replyLost \/ (~copen[c] /\ cst[c] # "closed"))    \* the write fails although the client is there
-  /\ UNCHANGED <<fields, transp, svars, wpc, wown, dl, copen, hclosed, kvars, shvars, cvars, crashed>>
+  /\ UNCHANGED <<fields, transp, svars, wpc, wown, dl, copen, hclosed, hij, kvars, shvars, cvars, crashed>>
   /\ L(<<"WReply", c, copen[c] /\ cst[c] # "closed">>)
 
 WHClose(c) ==                     \* w.Close() from the handler
   /\ HandlerMayClose /\ wpc[c] = "inh" /\ ~hclosed[c]
   /\ hclosed' = [hclosed EXCEPT ![c] = TRUE]
   /\ copen' = [copen EXCEPT ![c] = FALSE]
-  /\ UNCHANGED <<fields, transp, svars, wpc, wown, dl, hrep, kvars, shvars, cvars, hist>>
+  /\ UNCHANGED <<fields, transp, svars, wpc, wown, dl, hrep, hij, kvars, shvars, cvars, hist>>
   /\ L(<<"WHClose", c>>)
+
+WHijack(c) ==                     \* w.Hijack() from the handler: the server will neither read nor close the connection again
+  /\ HandlerMayHijack /\ wpc[c] = "inh" /\ hrep[c] /\ ~hclosed[c] /\ ~hij[c]
+  /\ hij' = [hij EXCEPT ![c] = TRUE]
+  /\ UNCHANGED <<fields, transp, svars, wpc, wown, dl, copen, hrep, hclosed, kvars, shvars, cvars, hist>>
+  /\ L(<<"WHijack", c>>)
 
 WHandlerExit(c) ==
   /\ wpc[c] = "inh" /\ (hrep[c] \/ hclosed[c])
-  /\ wpc' = [wpc EXCEPT ![c] = IF hclosed[c] THEN "closing" ELSE "top"]    \* if w.closed {break}
-  /\ UNCHANGED <<fields, transp, svars, wown, dl, copen, hrep, hclosed, kvars, shvars, cvars, hist>>
+  /\ wpc' = [wpc EXCEPT ![c] = IF hclosed[c] \/ hij[c] THEN "closing" ELSE "top"]    \* if w.closed / w.hijacked {break}
+  /\ UNCHANGED <<fields, transp, svars, wown, dl, copen, hrep, hclosed, hij, kvars, shvars, cvars, hist>>
   /\ L(<<"WHandlerExit", c>>)
 
 WClose(c) ==                      \* w.Close() after the loop
   /\ wpc[c] = "close"
   /\ copen' = [copen EXCEPT ![c] = FALSE]
   /\ wpc' = [wpc EXCEPT ![c] = "closing"]
-  /\ UNCHANGED <<fields, transp, svars, wown, dl, hrep, hclosed, kvars, shvars, cvars, hist>>
+  /\ UNCHANGED <<fields, transp, svars, wown, dl, hrep, hclosed, hij, kvars, shvars, cvars, hist>>
   /\ L(<<"WClose", c>>)
 
 WUnreg(c) ==                      \* lock; delete(srv.conns, rw) -- the CURRENT map; unlock; wg.Done()
   /\ wpc[c] = "closing" /\ Free
-  /\ conns' = conns \ {c}
+  /\ conns' = IF Bug = "hijack_keeps_conn" /\ hij[c] THEN conns ELSE conns \ {c}   \* hijacked or not: untracked
   /\ wg' = [wg EXCEPT ![wown[c]] = @ - 1]
   /\ wpc' = [wpc EXCEPT ![c] = "done"]
-  /\ UNCHANGED <<started, lock, gen, closed, lsnField, cfgBad, pcField, transp, spc, sgen, sres, scur, serr, slsn, sbad, wown, dl, copen, hrep, hclosed, kvars, shvars, cvars, hist>>
+  /\ UNCHANGED <<started, lock, gen, closed, lsnField, cfgBad, pcField, transp, spc, sgen, sres, scur, serr, slsn, sbad, wown, dl, copen, hrep, hclosed, hij, kvars, shvars, cvars, hist>>
   /\ L(<<"WUnreg", c>>)
 
 WExit(c) ==                       \* the goroutine is gone
   /\ wpc[c] = "done"
   /\ wpc' = [wpc EXCEPT ![c] = "gone"]
-  /\ UNCHANGED <<fields, transp, svars, wown, dl, copen, hrep, hclosed, kvars, shvars, cvars, hist>>
+  /\ UNCHANGED <<fields, transp, svars, wown, dl, copen, hrep, hclosed, hij, kvars, shvars, cvars, hist>>
   /\ L(<<"WExit", c>>)
 
 -----------------------------------------------------------------------------
@@ -439,7 +452,7 @@ KGone(k) ==
 -----------------------------------------------------------------------------
 (* ShutdownContext 411-450                                                   *)
 
-InLoop(p) == spc[p] \in {"top", "accept", "rdl", "read", "got", "got2", "goterr"}
+InLoop(p) == spc[p] \in {"notify", "top", "accept", "rdl", "read", "got", "got2", "goterr"}
 
 ShBegin(h) ==                     \* Lock; if !started {Unlock; return err}; started = false
   /\ shpc[h] = "idle" /\ Free
@@ -485,7 +498,7 @@ ShKick(h, c) ==                   \* for rw := range srv.conns {rw.SetReadDeadli
   /\ IF Bug = "sh_closes_conns"
      THEN copen' = [copen EXCEPT ![c] = FALSE] /\ UNCHANGED dl
      ELSE dl' = [dl EXCEPT ![c] = "past"] /\ UNCHANGED copen
-  /\ UNCHANGED <<fields, transp, svars, wpc, wown, hrep, hclosed, kvars, shpc, shres, shgen, capt, shseen, shtodo, cvars, hist>>
+  /\ UNCHANGED <<fields, transp, svars, wpc, wown, hrep, hclosed, hij, kvars, shpc, shres, shgen, capt, shseen, shtodo, cvars, hist>>
   /\ L(<<"ShKick", h, c>>)
 
 ShUnlock(h) ==
@@ -599,11 +612,11 @@ HFix ==                           \* ... and puts the usable one back
 
 -----------------------------------------------------------------------------
 StarterStep(p) == (\E bad \in BOOLEAN : StLock(p, bad)) \/ StBody(p) \/ StErrReturn(p)
-ServeStep(p)   == \/ SCheck(p) \/ SAcceptOk(p) \/ SAcceptErr(p) \/ SErrCheck(p) \/ SRegister(p)
+ServeStep(p)   == \/ SNotify(p) \/ SCheck(p) \/ SAcceptOk(p) \/ SAcceptErr(p) \/ SErrCheck(p) \/ SRegister(p)
                   \/ SSpawnFirst(p) \/ SRegLate(p) \/ SDrain(p) \/ SCloseChan(p) \/ SReturn(p)
                   \/ URdl(p) \/ UReadOk(p) \/ UReadErr(p) \/ USpawn(p)
 WorkerStep(c)  == \/ WStart(c) \/ WLoop(c) \/ WSetDeadline(c) \/ WReadOk(c) \/ WReadTimeout(c) \/ WReadEOF(c)
-                  \/ WHandlerEnter(c) \/ WReply(c) \/ WHClose(c) \/ WHandlerExit(c) \/ WClose(c) \/ WUnreg(c) \/ WExit(c)
+                  \/ WHandlerEnter(c) \/ WReply(c) \/ WHClose(c) \/ WHijack(c) \/ WHandlerExit(c) \/ WClose(c) \/ WUnreg(c) \/ WExit(c)
 \* a handler is free to close or not: only its termination is a fairness assumption
 WorkerFair(c)  == \/ WStart(c) \/ WLoop(c) \/ WSetDeadline(c) \/ WReadOk(c) \/ WReadTimeout(c) \/ WReadEOF(c)
                   \/ WHandlerEnter(c) \/ WReply(c) \/ WHandlerExit(c) \/ WClose(c) \/ WUnreg(c) \/ WExit(c)
@@ -632,7 +645,7 @@ Spec == Init /\ [][Next]_vars /\ Fairness
 
 TypeOK ==
   /\ started \in BOOLEAN /\ cfgBad \in BOOLEAN /\ pcField \in BOOLEAN /\ gen \in 0..NStart /\ closed \subseteq 1..NStart /\ conns \subseteq C
-  /\ \A p \in P : spc[p] \in {"idle", "locked", "err", "top", "accept", "rdl", "read", "got", "got2", "goterr",
+  /\ \A p \in P : spc[p] \in {"idle", "locked", "err", "notify", "top", "accept", "rdl", "read", "got", "got2", "goterr",
                               "defer", "drained", "closed", "returned"}
   /\ \A p \in P : wg[p] >= 0
   /\ \A c \in C : wpc[c] \in {"none", "spawned", "top", "rdl", "read", "have", "inh", "close", "closing", "done", "gone"}
@@ -677,7 +690,7 @@ ServeReturnsNil ==
 StartTwiceErrors ==
   [][ \A p \in P : spc[p] = "locked" /\ spc'[p] # "locked" =>
         IF started THEN spc'[p] = "err" /\ sres'[p] = "already" /\ UNCHANGED <<started, gen, conns>>
-                   ELSE (spc'[p] = "top" /\ started') \/ (spc'[p] = "err" /\ sres'[p] = "fail") ]_vars
+                   ELSE (spc'[p] = "notify" /\ started') \/ (spc'[p] = "err" /\ sres'[p] = "fail") ]_vars
 \* A start that returns an error leaves the server not started and the lock free; it does not block.
 FailedStartLeavesStopped ==
   [][ \A p \in P : /\ (spc[p] = "locked" /\ spc'[p] = "err" /\ sres'[p] = "fail" => ~started')
